@@ -56,14 +56,15 @@ def _field_calls(fa: FA, field: str, method: str):
     return [c for c in fa.calls(method) if A.dotted(A.call_recv(c)) == "self." + field or _xt(fa, A.call_recv(c), c) == "self." + field]
 
 
-def _binder_iter(fa: FA, name_node):
+def _binder_iter(fa: FA, name_node, pm=None):
     """The iterable that binds the variable `name_node` (a Name): the enclosing comprehension generator or for-loop
-    whose target is that name."""
+    whose target is that name.  (`pm`: parent map of the tree `name_node` lives in, when that is not the function's own)"""
     if not isinstance(name_node, ast.Name):
         return None
+    pm = fa.pm if pm is None else pm
     n = name_node
     while n is not None:
-        n = fa.pm.get(n)
+        n = pm.get(n)
         if isinstance(n, (ast.ListComp, ast.SetComp, ast.GeneratorExp, ast.DictComp)):
             for g in n.generators:
                 if name_node.id in [x.id for x in ast.walk(g.target) if isinstance(x, ast.Name)]:
@@ -72,28 +73,72 @@ def _binder_iter(fa: FA, name_node):
             return n.iter
         if isinstance(n, ast.Lambda) and name_node.id in [a.arg for a in n.args.args]:
             # filter(lambda k: ..., iterable) / map(...)
-            call = fa.pm.get(n)
+            call = pm.get(n)
             if isinstance(call, ast.Call) and isinstance(call.func, ast.Name) and call.func.id in ("filter", "map") and len(call.args) == 2 and call.args[0] is n:
                 return call.args[1]
             return None
     return None
 
 
+def _prefix_tests(fa: FA, ck=None):
+    """Tests "does the string S start with P", by what they compute: `S.startswith(P)`, `S[:len(P)] == P` (either operand
+    order, `!=` as well, the length through a temporary), `S.find(P) == 0`; in the function's own body, comprehensions and
+    lambda bodies included, and in what a single-expression helper of the same class returns for the arguments it is
+    called with here (`self._keys_under(self.refs, prefix)`).
+    -> [(test node, S, P, a node of the function at which S and P can be expanded, the iterable that binds S or None)]"""
+    def scan(nodes, at, pm):
+        out = []
+        for n in nodes:
+            hit = None
+            if isinstance(n, ast.Call) and A.call_attr(n) == "startswith" and isinstance(n.func, ast.Attribute) and n.args:
+                hit = (n.func.value, n.args[0])
+            elif isinstance(n, ast.Compare) and len(n.ops) == 1 and isinstance(n.ops[0], (ast.Eq, ast.NotEq)):
+                for (a, b) in ((n.left, n.comparators[0]), (n.comparators[0], n.left)):
+                    if isinstance(a, ast.Subscript) and isinstance(a.slice, ast.Slice) and a.slice.step is None and a.slice.upper is not None \
+                            and (a.slice.lower is None or (isinstance(a.slice.lower, ast.Constant) and a.slice.lower.value == 0)):
+                        up = safe_expand(fa, a.slice.upper, at if at is not None else n)
+                        if isinstance(up, ast.Call) and isinstance(up.func, ast.Name) and up.func.id == "len" and len(up.args) == 1 and not up.keywords \
+                                and A.norm(up.args[0]) == A.norm(safe_expand(fa, b, at if at is not None else n)):
+                            hit = (a.value, b)
+                            break
+                    if isinstance(a, ast.Call) and A.call_attr(a) == "find" and isinstance(a.func, ast.Attribute) and len(a.args) == 1 \
+                            and isinstance(b, ast.Constant) and b.value == 0 and type(b.value) is int:
+                        hit = (a.func.value, a.args[0])
+                        break
+            if hit is not None:
+                out.append((n, hit[0], hit[1], at if at is not None else n, _binder_iter(fa, hit[0], pm)))
+        return out
+
+    nodes = list(A.walk_body(fa.node))
+    nodes += [x for lam in list(nodes) if isinstance(lam, ast.Lambda) for x in ast.walk(lam.body)]
+    out = scan(nodes, None, None)
+    cls = fa.fi.cls
+    if ck is not None and cls is not None:
+        for c in [n for n in nodes if isinstance(n, ast.Call)]:
+            f = c.func
+            if isinstance(f, ast.Attribute) and isinstance(f.value, ast.Name) and f.value.id in ("self", "cls", cls.name) and f.attr in cls.methods \
+                    and cls.methods[f.attr] is not fa.fi:
+                body = _inline_own_builders(ck, cls, c)
+                if body is not c and not (isinstance(body, ast.Call) and A.norm(body) == A.norm(c)):
+                    sub = list(ast.walk(body))
+                    out += scan(sub, c, A.parent_map(body))
+    return out
+
+
 def _forget_by_scan(ck, R, cm, ff, sw, sep):
     own = [p_ for p_ in ff.fi.params if p_ != "self"]
     slots = set()
-    for c in sw:
+    for (c, subj, pre, at, it) in sw:
         # the selection prefix, however it is spelled (concatenation / format / f-string, through temporaries), is
         # <function reference>.qualified_name followed by exactly the key separator
-        parts = A.str_parts(safe_expand(ff, c.args[0])) if c.args else None
+        parts = A.str_parts(safe_expand(ff, pre, at))
         ok = bool(parts) and len(parts) == 2 and parts[0][0] == "expr" and parts[1] == ("lit", sep) and bool(own) \
             and A.norm(parts[0][1]) == own[0] + ".qualified_name"
-        ck.ob(R, ff.key(c, "prefix-terminated"), ok,
+        ck.ob(R, ff.key(at, "prefix-terminated"), ok,
               "selection prefix is qualified_name + %r" % sep if ok else
               "selection prefix is not terminated by the key separator %r: 'f#1' would also select 'f#10/...'" % sep,
-              ff.where(c))
+              ff.where(at))
         # which table do the tested keys come from: the iterable that binds the tested variable (comprehension or loop)
-        it = _binder_iter(ff, A.call_recv(c))
         if it is not None:
             for a in A.attrs_in(it):
                 slots.add(a)
@@ -152,6 +197,10 @@ def check_cache_reads_own_key(ck, cm: CacheModel, R):
     obtained elsewhere (another call that shares the stored object, a content index, ...): two calls
     that write different results under one override key have different values but equal content keys."""
     fa = FA(ck, cm.cls.methods["read_result"])
+    if any(r.value is not None and not fa.nodes(r) for r in fa.returns()):
+        # a return in a handler of a try body without a call (`try: e = self.cache[k] except KeyError: return self.refs[k]`): only the
+        # CFG with implicit exception edges reaches it
+        fa = FA(ck, cm.cls.methods["read_result"], exc_mode="all")
     ck.need(len(fa.fi.params) >= 2, "MemoryCache.read_result(memento) signature changed")
     mem = fa.fi.params[1]
     own = _cache_key_canon(ck, cm, ast.parse("self._cache_key_for_memento(%s)" % mem, mode="eval").body)
@@ -228,23 +277,42 @@ def _cache_key_canon(ck, cm, key_expr) -> str:
 def check_metadata_single_form(ck, R):
     """Custom metadata for a key lives in ONE of two forms (a plain file, or a marker that says the value is beside
     the data object) and the reader probes the plain form first: a writer that leaves the other form behind makes
-    a later read return the superseded value.  write_metadata removes the key's other form."""
+    a later read return the superseded value.  write_metadata removes the key's other form: decided for both values of
+    the form flag -- under each, every way to the normal exit passes a delete of the key built with the OPPOSITE flag
+    (a by-pass only where that key was found not to exist)."""
+    from .effects import Assume, param_truth_atom
     fa = FA(ck, MDS + ".write_metadata")
+    mkf = ck.repo.try_func(MDS + "._get_metadata_key")
+    mkp = mkf.params if mkf is not None else ["fn_with_arg_hash", "key", "stored_with_data"]
+    flag = fa.fi.params[4] if len(fa.fi.params) > 4 else "stored_with_data"
     dels = [c for c in fa.calls("delete_all_versions") + fa.calls("delete_nonversioned_key")]
-    ok = False
-    for c in dels:
-        key_ = A.arg_or_kw(c, 0, "key")
-        if key_ is None:
-            continue
-        e = safe_expand(fa, key_, c)
-        inner = [x for x in ast.walk(e) if isinstance(x, ast.Call) and A.call_attr(x) == "_get_metadata_key"]
-        mkf = ck.repo.try_func(MDS + "._get_metadata_key")
-        mkp = mkf.params if mkf is not None else ["fn_with_arg_hash", "key", "stored_with_data"]
-        for x in inner:
-            form = _bind(x, mkp).get(mkp[-1])
-            # the other form: the negation of the flag this write was asked for
-            if isinstance(form, ast.UnaryOp) and isinstance(form.op, ast.Not) and A.norm(form.operand) == "stored_with_data":
-                ok = True
+    ok = bool(dels)
+    for v in (True, False):
+        asm = Assume(fa, param_truth_atom(flag, v))
+        good = []
+        for c in dels:
+            key_ = A.arg_or_kw(c, 0, "key")
+            if key_ is None:
+                continue
+            for i in asm.may_run(c):
+                forms = []
+                for (leaf, n) in asm.cases(key_, i):
+                    e = leaf
+                    try:
+                        e = fa.expand(leaf, n)
+                    except AnalysisError:
+                        pass
+                    inner = [x for x in ast.walk(e) if isinstance(x, ast.Call) and A.call_attr(x) == "_get_metadata_key"]
+                    if len(inner) != 1:
+                        forms.append(None)
+                        continue
+                    form = _bind(inner[0], mkp).get(mkp[-1])
+                    forms.append(asm.ev(form, n) if form is not None else None)
+                if forms and all(f is (not v) for f in forms):
+                    good.append(i)
+        absent = branch_filter(fa, lambda t, p: (not p) and "exists_nonversioned(" in t)
+        okv = bool(good) and fa.cfg.exit not in fa.cfg.reach([fa.cfg.entry], removed=good, edge_ok=both(asm.edge_ok, absent))
+        ok = ok and okv
     ck.ob(R, fa.key(None, "other-form-removed"), ok, "writing one form of a metadata key removes the other form" if ok else
           "write_metadata does not remove the key's other form (plain file / with-data marker): write_metadata(k, v1) followed by "
           "write_metadata(k, v2, store_with_content_key=...) reads back v1 on the filesystem backend, v2 on the memory backend", fa.where())
@@ -265,6 +333,40 @@ def check_delete_enumerates_versions(ck, R):
           "every version object under the key's versions directory is unlinked" if ok else
           "_delete_all_versions_for_key does not enumerate the versions directory on every path (it deletes what the link resolves to, at most): "
           "superseded versions of a key written twice stay behind, the function directory is never pruned and a forgotten function stays listed", fa.where())
+    # ... and the enumeration is of EVERY version directory: `output` never removes the previous version of a key, the link
+    # names the newest one only, so which version objects go must not be narrowed to one directory (a value in the place of the
+    # wildcard, on any branch) nor filtered by what the link says
+    cls = ck.repo.cls(FSDS)
+    scans = [VersionScan(ck, fa, lp, vlits, cls) for lp in loops]
+    top = []
+    for sc in scans:
+        outer = [o for o in scans if o is not sc and fa.inside(sc.lp, o.lp)]
+        if outer and (sc.complete or sc.why == "sub-scan"):
+            continue        # a scan of one version directory that an enclosing scan found
+        top.append(sc)
+        why = sc.why if sc.why != "sub-scan" else "`%s` scans one directory, not the key's versions directory" % A.short(sc.lp.iter, 50)
+        if sc.complete:
+            # no test inside the loop decides by the link's content which of the enumerated objects is unlinked
+            for t in [n for n in fa.cfg.nodes if n.kind == "test" and n.ast is not None and fa.inside(n.ast, sc.lp) and n.id in fa.cfg.reachable_nodes()]:
+                if set(fa.df.deps(t.ast, t.id)) & set(_LINK_CONTENT):
+                    why = "inside the scan `%s` decides by what the link says which objects are unlinked" % A.short(t.ast, 50)
+        okc = sc.complete and not why
+        ck.ob(R, fa.key(sc.lp, "every-version-directory"), okc,
+              "the scan visits every version directory of the key" if okc else
+              "the delete scan does not visit every version directory of the key (%s): a key written twice has two version objects and the link names "
+              "only the newest, so the superseded one stays behind, the function's directory is never pruned and a function with no call left "
+              "stays listed" % (why or "not a complete enumeration"), fa.where(sc.lp))
+    # ... and one of the scans that every path passes selects the object itself (file name = the key's base name, no further
+    # literal), not only what is stored beside it
+    if ok and top and all(sc.complete for sc in top):
+        def on_every_path(sc):
+            return fa.cfg.exit not in fa.cfg.reach([fa.cfg.entry], removed=fa.nodes(sc.lp), edge_ok=skip)
+        def selects_object(sc):
+            return sc.names is None or (len(sc.names) == 1 and sc.names[0][0] == "expr")
+        oko = any(on_every_path(sc) and selects_object(sc) for sc in top)
+        ck.ob(R, fa.key(None, "objects-enumerated"), oko, "the version objects themselves are among what the scans select" if oko else
+              "the delete scans select files stored beside the version objects only (every pattern carries a literal after the key's base name): "
+              "the objects of a deleted key stay behind", fa.where())
     dv = FA(ck, FSDS + ".delete_all_versions")
     # what removes the link, by what it does: an unlink of the path the link builder returns, here or in a method of the
     # data source that does so on every path (whatever that method is called and however the helpers are merged or split)
@@ -322,6 +424,198 @@ def _version_scan_loops(fa: FA, vlits):
             if any(A.call_attr(c) in ("unlink", "remove") for c in A.calls_in(lp)):
                 loops.append(lp)
     return loops
+
+
+# what only the link file can say: the link names ONE version (the newest) of the key
+_LINK_CONTENT = ("call:_read_non_versioned_link", "call:input_nonversioned", "call:read", "call:read_text", "call:readline", "call:readlines", "call:readlink")
+_SEQ_WRAPPERS = ("list", "sorted", "tuple", "iter", "set", "reversed")
+
+
+def _alternatives(fa: FA, e, at, cap=24):
+    """Every expression `e` (evaluated at CFG node `at`) may stand for: a local with ONE reaching plain assignment is
+    replaced by its value (as FA.expand does), a local with SEVERAL (a value chosen on different branches) gives one
+    alternative per assignment, a conditional expression one per arm.  -> list of expressions (at most `cap`)."""
+    import copy
+
+    def replace(tree, site, new):
+        if tree is site:
+            return copy.deepcopy(new)
+        idx = [i for i, y in enumerate(ast.walk(tree)) if y is site][0]
+        t2 = copy.deepcopy(tree)
+        site2 = list(ast.walk(t2))[idx]
+        new2 = copy.deepcopy(new)
+
+        class T(ast.NodeTransformer):
+            def visit(self, n_):
+                return new2 if n_ is site2 else self.generic_visit(n_)
+
+        return T().visit(t2)
+
+    def alts(tree, at_, depth, stack):
+        bound = set()
+        for x in ast.walk(tree):
+            if isinstance(x, ast.comprehension):
+                bound |= {n.id for n in ast.walk(x.target) if isinstance(n, ast.Name)}
+            if isinstance(x, ast.Lambda):
+                bound |= {a.arg for a in x.args.args + x.args.kwonlyargs + x.args.posonlyargs}
+        site = vals = None
+        if depth > 0:
+            for x in ast.walk(tree):
+                if getattr(x, "_alt_done", False):
+                    continue
+                if isinstance(x, ast.IfExp):
+                    site, vals = x, [(x.body, at_, None), (x.orelse, at_, None)]
+                    break
+                if isinstance(x, ast.Name) and isinstance(x.ctx, ast.Load) and x.id not in bound:
+                    ds = [d for d in fa.df.reaching(at_, x.id)]
+                    if ds and all(d.kind in ("assign", "aug") and d.value is not None and d.node >= 0 and (d.node, d.name) not in stack for d in ds):
+                        # `x += e` stands for x = <x before> + e (evaluated where it is written)
+                        site, vals = x, [((d.value if d.kind == "assign" else
+                                           ast.BinOp(left=ast.Name(id=x.id, ctx=ast.Load()), op=copy.deepcopy(d.stmt.op), right=d.value)),
+                                          d.node, (d.node, d.name)) for d in ds]
+                        break
+                    x._alt_done = True
+        if site is None:
+            return [tree]
+        out = []
+        for (v, v_at, key) in vals:
+            for s_ in alts(copy.deepcopy(v), v_at, depth - 1, stack + ((key,) if key else ())):
+                if v_at != at_ or key is not None:
+                    for y in ast.walk(s_):
+                        y._alt_done = True     # evaluated where it was assigned: final
+                out += alts(replace(tree, site, s_), at_, depth - 1, stack)
+                if len(out) >= cap:
+                    return out[:cap]
+        return out
+
+    return alts(copy.deepcopy(e), at, 16, ())
+
+
+def _pattern_parts(p):
+    """flat parts of a glob pattern / file name, `<fmt>.format(..)` with a built (non-literal) format string included"""
+    parts = A.str_parts(p)
+    if parts is None and isinstance(p, ast.Call) and A.call_attr(p) == "format" and isinstance(p.func, ast.Attribute):
+        head = A.str_parts(p.func.value)
+        if head is not None:
+            # the fields of the literal pieces are filled from the arguments in order
+            out, k = [], 0
+            for (kind, v) in head:
+                if kind != "lit":
+                    out.append((kind, v))
+                    continue
+                pieces = v.split("{}")
+                for i, pc in enumerate(pieces):
+                    if pc:
+                        out.append(("lit", pc))
+                    if i < len(pieces) - 1:
+                        if k >= len(p.args):
+                            return None
+                        sub = A.str_parts(p.args[k])
+                        out += sub if sub is not None else [("expr", p.args[k])]
+                        k += 1
+            parts = A._merge(out)
+    return parts
+
+
+class VersionScan:
+    """How a loop of the deleter enumerates the version objects of a key.
+
+    `complete`  every version directory of the key's versions directory is visited: `<versions dir>.glob('*/...')`,
+                `.iterdir()`, `os.listdir / os.scandir(<versions dir>)`, `glob.glob(<versions dir>/*/...)`, through
+                list()/sorted() and comprehensions that filter on nothing the link says
+    `why`       (when not complete) what narrows it
+    `names`     for a glob: the parts of the pattern after the version component (what file names it selects)
+    `nested`    the loop runs over something found by an enclosing complete scan (a sub-scan of one version directory)"""
+
+    def __init__(self, ck, fa: FA, lp, vlits, cls):
+        self.lp, self.complete, self.why, self.names, self.nested = lp, False, "", None, False
+        ids = fa.nodes(lp)
+        if not ids:
+            self.why = "unreachable"
+            return
+        verdicts = []
+        for alt in _alternatives(fa, lp.iter, ids[0]):
+            verdicts.append(self._classify(ck, fa, cls, alt, vlits, ids[0]))
+        bad = [v for v in verdicts if v[0] is not True]
+        self.complete = bool(verdicts) and not bad
+        self.why = bad[0][1] if bad else ""
+        nm = [v[2] for v in verdicts if v[2] is not None]
+        self.names = nm[0] if nm and len(nm) == len(verdicts) else None
+
+    def _is_vdir(self, ck, cls, e, vlits) -> bool:
+        e = _strip_path_wrappers(e)
+        x = _strip_path_wrappers(_inline_own_builders(ck, cls, e))
+        last = None
+        if isinstance(x, ast.Call) and A.call_attr(x) in ("joinpath", "join") and x.args:
+            last = x.args[-1]
+        elif isinstance(x, ast.BinOp) and isinstance(x.op, ast.Div):
+            last = x.right
+        return isinstance(last, ast.Constant) and last.value in vlits
+
+    def _classify(self, ck, fa, cls, e, vlits, at):
+        """-> (True | False, why, name parts | None)"""
+        while isinstance(e, ast.Call) and isinstance(e.func, ast.Name) and e.func.id in _SEQ_WRAPPERS and e.args:
+            e = e.args[0]
+        if isinstance(e, (ast.ListComp, ast.GeneratorExp, ast.SetComp)):
+            if len(e.generators) != 1:
+                return (False, "`%s` is not a plain enumeration" % A.short(e, 50), None)
+            g = e.generators[0]
+            for c_ in g.ifs:
+                try:
+                    d = fa.df.deps(c_, at, None, {n.id: g.iter for n in ast.walk(g.target) if isinstance(n, ast.Name)})
+                except Exception:  # noqa
+                    d = set()
+                if set(d) & set(_LINK_CONTENT):
+                    return (False, "the scan keeps only entries chosen by what the link says (`%s`)" % A.short(c_, 50), None)
+            return self._classify(ck, fa, cls, g.iter, vlits, at)
+        if not isinstance(e, ast.Call):
+            return (False, "`%s` is not an enumeration of the versions directory" % A.short(e, 50), None)
+        nm, d = A.call_attr(e), A.call_dotted(e) or ""
+        if nm in ("iterdir",) and isinstance(e.func, ast.Attribute) and self._is_vdir(ck, cls, e.func.value, vlits):
+            return (True, "", None)
+        if d in ("os.listdir", "os.scandir") and e.args and self._is_vdir(ck, cls, e.args[0], vlits):
+            return (True, "", None)
+        if nm in ("glob", "rglob", "iglob") and e.args:
+            if isinstance(e.func, ast.Attribute) and self._is_vdir(ck, cls, e.func.value, vlits):
+                if nm == "rglob":
+                    return (True, "", _pattern_parts(e.args[0]))
+                return self._wild(_pattern_parts(e.args[0]), e.args[0])
+            # glob.glob(<versions dir>/*/...): the module function, under whatever name it was imported
+            p = e.args[0]
+            if isinstance(p, ast.Call) and A.call_attr(p) == "join" and "path" in (A.call_dotted(p) or ""):
+                for i, a in enumerate(p.args):
+                    if self._is_vdir(ck, cls, a, vlits):
+                        rest = p.args[i + 1:]
+                        parts = []
+                        for j, r_ in enumerate(rest):
+                            sp = A.str_parts(r_)
+                            parts += (sp if sp is not None else [("expr", r_)]) + ([("lit", "/")] if j < len(rest) - 1 else [])
+                        return self._wild(A._merge(parts), p)
+            parts = _pattern_parts(p)
+            if parts:
+                for i, (k, v) in enumerate(parts):
+                    if k == "expr" and self._is_vdir(ck, cls, v, vlits) and i + 1 < len(parts) and parts[i + 1][0] == "lit" and parts[i + 1][1][:1] in ("/", "\\"):
+                        rest = [("lit", parts[i + 1][1][1:])] + parts[i + 2:]
+                        return self._wild(A._merge(rest), p)
+            if isinstance(e.func, ast.Attribute) and not isinstance(e.func.value, ast.Call) and (A.call_dotted(e) or "").split(".")[0] not in ("glob", "_glob"):
+                return (None, "sub-scan", None)
+            return (False, "`%s` is not an enumeration of the versions directory" % A.short(e, 50), None)
+        return (False, "`%s` is not an enumeration of the versions directory" % A.short(e, 50), None)
+
+    @staticmethod
+    def _wild(parts, node):
+        """the first component of the pattern (the version) is the wildcard"""
+        if not parts:
+            return (False, "the scan pattern `%s` cannot be read" % A.short(node, 50), None)
+        (k, v) = parts[0]
+        if k != "lit":
+            return (False, "the version component of the scan pattern is `%s`, a value, not the wildcard" % A.short(v, 40), None)
+        comp = v.replace("\\", "/").split("/")[0]
+        if comp not in ("*", "**"):
+            return (False, "the version component of the scan pattern is %r, not the wildcard" % comp, None)
+        rest = v.replace("\\", "/").split("/", 1)[1] if "/" in v.replace("\\", "/") else ""
+        names = ([("lit", rest)] if rest else []) + list(parts[1:])
+        return (True, "", names)
 
 
 def _mentions_table(fa: FA, e, tb, at=None) -> bool:
@@ -444,7 +738,7 @@ def check_forget_scope(ck, cm: CacheModel):
     kb.ck.need(len(seps) == 1, "cache key builder: cannot identify the separator constant")
     sep = seps[0]
     ff = FA(ck, "storage_base.MemoryCache.forget_function")
-    sw = ff.calls("startswith")
+    sw = _prefix_tests(ff, ck)
     if sw:
         _forget_by_scan(ck, R, cm, ff, sw, sep)
     else:
@@ -452,11 +746,14 @@ def check_forget_scope(ck, cm: CacheModel):
     # (b) metadata source
     f1 = FA(ck, MDS + ".forget_function")
     dels = f1.some(f1.calls("delete_all_versions"), "delete_all_versions call")
+    own1 = [p_ for p_ in f1.fi.params if p_ != "self"]
     for c in dels:
         key_ = A.arg_or_kw(c, 0, "key")
-        deps = f1.deps(key_) if key_ is not None else set()
         rec_ = A.arg_or_kw(c, 1, "recursive")
-        ok = "call:_get_function_path" in deps and "param:fn_reference" in deps and rec_ is not None and _xt(f1, rec_, c) == "True"
+        # the function's directory m/<qualified name> of the function asked about: `_get_function_path(fn)` or the same
+        # path written out in place
+        kparts = PathModel(ck).flatten(f1, key_, c) if key_ is not None else []
+        ok = bool(own1) and kparts == [("fnpath", own1[0])] and rec_ is not None and _xt(f1, rec_, c) == "True"
         ck.ob(R, f1.key(c), ok, "deletes exactly the function's directory, recursively" if ok else
               "forget_function does not delete exactly the directory returned by _get_function_path", f1.where(c))
     f2 = FA(ck, MDS + ".forget_call")
@@ -478,6 +775,12 @@ def check_forget_scope(ck, cm: CacheModel):
         hits = [c_ for c_ in ast.walk(x) if isinstance(c_, ast.Call) and A.call_attr(c_) == fn_name and len(c_.args) == 1]
         if len(hits) == 1:
             return hits[0].args[0]
+        # pathlib: PurePosixPath(P).parent / .name
+        attr = "parent" if fn_name == "dirname" else "name"
+        ph = [a_ for a_ in ast.walk(x) if isinstance(a_, ast.Attribute) and a_.attr == attr and isinstance(a_.value, ast.Call)
+              and A.call_attr(a_.value) in ("PurePosixPath", "PurePath", "Path", "PosixPath") and len(a_.value.args) == 1 and not a_.value.keywords]
+        if len(ph) == 1:
+            return ph[0].value.args[0]
         for nm in [n_ for n_ in ast.walk(x) if isinstance(n_, ast.Name)]:
             for d_ in (f2.df.reaching(ids[0], nm.id) if ids else []):
                 st_ = d_.stmt if d_.stmt is not None else (f2.cfg.node(d_.node).ast if d_.node >= 0 else None)
@@ -518,9 +821,17 @@ def check_forget_scope(ck, cm: CacheModel):
         loop = f2.enclosing(c, ast.For)
         rec_ = A.arg_or_kw(c, 1, "recursive")
         key_ = A.arg_or_kw(c, 0, "key")
-        # the loop runs over what the selection listed (directly or through a temporary) and deletes each listed key
-        ok = loop is not None and (lk in list(ast.walk(loop.iter)) or "call:list_keys_nonversioned" in f2.deps(loop.iter)) and isinstance(loop.target, ast.Name) \
-            and key_ is not None and A.norm(key_) == loop.target.id and rec_ is not None and _xt(f2, rec_, c) == "False"
+        # the loop runs over what the selection listed (directly, through a temporary, sorted / enumerated) and deletes each listed key
+        elem = None
+        if loop is not None:
+            it_, tg_ = loop.iter, loop.target
+            while isinstance(it_, ast.Call) and isinstance(it_.func, ast.Name) and it_.func.id in ("enumerate", "sorted", "list", "tuple", "reversed", "iter") and it_.args:
+                if it_.func.id == "enumerate":
+                    tg_ = tg_.elts[1] if isinstance(tg_, ast.Tuple) and len(tg_.elts) == 2 else None
+                it_ = it_.args[0]
+            elem = tg_.id if isinstance(tg_, ast.Name) else None
+        ok = loop is not None and (lk in list(ast.walk(loop.iter)) or "call:list_keys_nonversioned" in f2.deps(loop.iter)) and elem is not None \
+            and key_ is not None and _xt(f2, key_, c) == elem and rec_ is not None and _xt(f2, rec_, c) == "False"
         ck.ob(R, f2.key(c), ok, "each selected key is deleted, non-recursively" if ok else
               "forget_call does not delete exactly the selected keys (non-recursively)", f2.where(c))
     f3 = FA(ck, MDS + ".forget_everything")
@@ -588,6 +899,16 @@ def check_forget_scope(ck, cm: CacheModel):
     for c in fe.calls("clear"):
         # the cleared table, named directly or reached through a loop variable / alias
         cl |= {d[5:] for d in (fe.deps(A.call_recv(c)) if fe.nodes(c) else set()) if d.startswith("attr:self.")} | {A.dotted(A.call_recv(c))}
+    # a table rebound to a fresh empty container is emptied as well
+    for st in fe.stmts(ast.Assign):
+        v_ = st.value
+        empty = (isinstance(v_, (ast.Dict, ast.List, ast.Set)) and not (getattr(v_, "keys", None) or getattr(v_, "elts", None))) or \
+            (isinstance(v_, ast.Call) and A.call_attr(v_) in ("dict", "OrderedDict", "list", "set") and not v_.args and not v_.keywords) or \
+            (isinstance(v_, ast.Call) and A.call_attr(v_) == "defaultdict" and len(v_.args) <= 1 and not v_.keywords)
+        if empty:
+            for t_ in st.targets:
+                if self_attr(t_):
+                    cl.add("self." + self_attr(t_))
     okE = {"self." + t for t in tables} <= cl
     ck.ob(R, fe.key(None, "tables"), okE, "forget_everything clears all tables" if okE else
           "forget_everything does not clear all of %s" % (tables,), fe.where())
@@ -595,8 +916,7 @@ def check_forget_scope(ck, cm: CacheModel):
     per_call = [c for c in fF.calls("forget_call") if A.dotted(A.call_recv(c)) == "self"]
     okF = bool(per_call) and any(isinstance(fF.enclosing(c, ast.For), ast.For) and ("list_mementos" in A.norm(fF.enclosing(c, ast.For).iter)
                                                                                     or "call:list_mementos" in fF.deps(fF.enclosing(c, ast.For).iter)) for c in per_call)
-    ck.ob(R, fF.key(None, "per-call"), okF, "forget_function forgets each memento of exactly this function" if okF else
-          "forget_function does not iterate this function's mementos through forget_call", fF.where())
+    sweep_ok = {}
     # custom metadata (and results) are keyed per call and can exist for calls that have no memento: they go with the
     # function as well, selected by the '<qualified name>/' prefix (terminated, so that f#1 does not take f#10 along)
     for tb in ("metadata", "result"):
@@ -612,21 +932,44 @@ def check_forget_scope(ck, cm: CacheModel):
             for i_ in ids_:
                 out_ |= fF.df.deps(e, i_)
             return out_
-        sw_all = list(fF.calls("startswith")) + [c_ for lam in A.walk_body(fF.node) if isinstance(lam, ast.Lambda)
-                                                 for c_ in ast.walk(lam.body) if isinstance(c_, ast.Call) and A.call_attr(c_) == "startswith"]
-        sel = [c for c in sw_all if _binder_iter(fF, A.call_recv(c)) is not None
-               and "attr:self." + tb in _deps_at(_binder_iter(fF, A.call_recv(c)), c)]
+        sw_all = _prefix_tests(fF, ck)
+        sel = [(at, pre) for (c, subj, pre, at, it) in sw_all if it is not None and "attr:self." + tb in _deps_at(it, at)]
         def _is_tb(e, at, tb=tb):
             return A.norm(e) == "self." + tb or (bool(fF.nodes(at)) and "attr:self." + tb in fF.deps(e))
         rem = [n for n in A.walk_body(fF.node) if (isinstance(n, ast.Delete) and any(isinstance(t, ast.Subscript) and _is_tb(t.value, n) for t in n.targets))
                or (isinstance(n, ast.Call) and A.call_attr(n) == "pop" and _is_tb(A.call_recv(n), n))]
-        term = bool(sel) and all(c.args and ("const:'/'" in _deps_at(c.args[0], c)) and "qualified_name" in {d.split(".")[-1] for d in _deps_at(c.args[0], c) if d.startswith("attr:")} for c in sel)
+        ownF = [p_ for p_ in fF.fi.params if p_ != "self"]
+
+        def _terminated(c, pre):
+            """the prefix is <function reference>.qualified_name followed by exactly '/', however it is put together"""
+            parts = A.str_parts(safe_expand(fF, pre, c))
+            if parts is not None:
+                return len(parts) == 2 and parts[0][0] == "expr" and parts[1] == ("lit", "/") and bool(ownF) and A.norm(parts[0][1]) == ownF[0] + ".qualified_name"
+            d_ = _deps_at(pre, c)
+            return "const:'/'" in d_ and "qualified_name" in {x.split(".")[-1] for x in d_ if x.startswith("attr:")}
+        term = bool(sel) and all(_terminated(c, pre) for (c, pre) in sel)
         okT = bool(sel) and bool(rem) and term
+        sweep_ok[tb] = okT
         if tb == "result" and not sel:
             continue  # results are removed per memento by forget_call; a prefix sweep is optional
         ck.ob(R, fF.key(None, "by-prefix:" + tb), okT, "forget_function drops %s entries under '<qualified name>/'" % tb if okT else
               "forget_function leaves %s entries of calls that have no memento (the filesystem backend drops them with the function's directory): "
               "no terminated '<qualified name>/' prefix sweep over self.%s" % (tb, tb), fF.where())
+    # the mementos (and results) of the function go call by call through forget_call -- or all at once: the function's whole
+    # table of mementos is removed on every path and both per-call tables are swept by the terminated prefix
+    if not okF and sweep_ok.get("metadata") and sweep_ok.get("result"):
+        ownF_ = [p_ for p_ in fF.fi.params if p_ != "self"]
+        whole = []
+        for c in fF.calls("pop"):
+            if c.args and self_attr(A.call_recv(c), "mementos") and fF.unconditional(c) and bool(ownF_) and _xt(fF, c.args[0], c) == ownF_[0] + ".qualified_name":
+                whole.append(c)
+        for st in fF.stmts(ast.Delete):
+            if any(isinstance(t, ast.Subscript) and self_attr(t.value, "mementos") and bool(ownF_) and _xt(fF, t.slice, st) == ownF_[0] + ".qualified_name" for t in st.targets):
+                whole.append(st)
+        gone = branch_filter(fF, lambda t, p: (not p) and t.endswith(" in self.mementos"))
+        okF = bool(whole) and fF.cfg.exit not in fF.cfg.reach([fF.cfg.entry], removed=fF.nodes_all(whole), edge_ok=gone)
+    ck.ob(R, fF.key(None, "per-call"), okF, "forget_function forgets each memento of exactly this function" if okF else
+          "forget_function does not iterate this function's mementos through forget_call", fF.where())
 
 
 def _enumerated_fields(ck, cls):
@@ -643,6 +986,44 @@ def _enumerated_fields(ck, cls):
             if isinstance(n, (ast.For, ast.comprehension)) and self_attr(n.iter):
                 out.add(n.iter.attr)
     return out
+
+
+def _lookup_cannot_create(ck, fi, sub) -> bool:
+    """A subscript load `T[k]` on a defaultdict creates an entry only when k is absent: a look-up that every way to it has
+    established `k in T` for (if statement, guard clause, conditional expression, `and`) creates nothing."""
+    if not (isinstance(sub, ast.Subscript) and fi is not None and fi.node is not None):
+        return False
+    fa = FA(ck, fi)
+    ids = fa.nodes(sub)
+    if not ids:
+        return False
+    try:
+        want = "%s in %s" % (fa.xnorm(sub.slice, ids[0]), fa.xnorm(sub.value, ids[0]))
+    except AnalysisError:
+        return False
+    # inside the statement: the arm of a conditional expression / the operand behind `and` that the membership test guards
+    n = sub
+    while n is not None and not isinstance(n, ast.stmt):
+        p_ = fa.pm.get(n)
+        tests = []
+        if isinstance(p_, ast.IfExp) and n is not p_.test:
+            tests = [(p_.test, n is p_.body)]
+        elif isinstance(p_, ast.BoolOp) and isinstance(p_.op, ast.And):
+            tests = [(v, True) for v in p_.values[:p_.values.index(n)]] if n in p_.values else []
+        elif isinstance(p_, (ast.ListComp, ast.SetComp, ast.GeneratorExp, ast.DictComp)):
+            tests = [(c_, True) for g in p_.generators for c_ in g.ifs] if not any(n is g.iter for g in p_.generators) else []
+        for (t, pol) in tests:
+            try:
+                if any(l == (want, True) for l in fa._atoms(t, ids[0], pol)):
+                    return True
+            except AnalysisError:
+                pass
+        n = p_
+    try:
+        conds = fa.conditions(fa.stmt_of(sub) or sub)
+    except AnalysisError:
+        return False
+    return bool(conds) and all((want, True) in c_ for c_ in conds)
 
 
 def check_queries_effect_free(ck, rule="C05.R3"):
@@ -676,9 +1057,11 @@ def check_queries_effect_free(ck, rule="C05.R3"):
             for (owner, fld, fi, node, chain) in muts:
                 if not is_persist_owner(owner):
                     continue
-                f = fld.split(":")[0]
                 # a look-up that creates an entry in a defaultdict changes backend state too, whether or not a query
-                # enumerates that table today (and it does so on a read-only backend as well)
+                # enumerates that table today (and it does so on a read-only backend as well) -- unless the key was
+                # found to be present first
+                if fld.endswith(":autoviv") and _lookup_cannot_create(ck, fi, node):
+                    continue
                 bad.append((owner, fld, fi, node, chain))
             if bad:
                 for (owner, fld, fi, node, chain) in bad[:3]:
@@ -702,8 +1085,10 @@ def check_queries_effect_free(ck, rule="C05.R3"):
             for name in ("forget_call", "forget_function"):
                 fa = FA(ck, MEMBACK + "." + name)
                 # a deletion of the outer key: del self.<outer>[k] / self.<outer>.pop(k)
-                removes = [s for s in fa.stmts(ast.Delete) if any(isinstance(t, ast.Subscript) and self_attr(t.value, outer) for t in s.targets)]
-                removes += [c for c in fa.calls("pop") if self_attr(A.call_recv(c), outer)]
+                def is_outer(e, at):
+                    return self_attr(e, outer) or _xt(fa, e, at) == "self." + outer      # named directly or through an alias
+                removes = [s for s in fa.stmts(ast.Delete) if any(isinstance(t, ast.Subscript) and is_outer(t.value, s) for t in s.targets)]
+                removes += [c for c in fa.calls("pop") if A.call_recv(c) is not None and is_outer(A.call_recv(c), c)]
                 delegated = name == "forget_function" and False
                 shell_clear = [c for c in fa.calls("clear") if isinstance(A.call_recv(c), ast.Subscript) and self_attr(A.call_recv(c).value, outer)]
                 ok = bool(removes) and not shell_clear
@@ -743,17 +1128,24 @@ def check_cache_coherence(ck, cm):
     # referenced, the slot of the previous value must be cleared (it would be served later)
     if cm.refs:
         for name, m in cm.cls.methods.items():
-            fa_ = FA(ck, m)
+            fa_ = FA(ck, m, exc_mode="all")     # the store into a weak table has no call: only implicit exception edges reach its handler
             for st in fa_.stmts(ast.Assign):
                 if any(isinstance(t, ast.Subscript) and self_attr(t.value, cm.refs) for t in st.targets):
                     tr = fa_.enclosing(st, ast.Try)
                     if tr is None or not any(fa_.inside(st, b) for b in tr.body):
                         continue
+                    # what empties the key's weak slot: pop / del on the weak table (inside the handler, or before the store
+                    # is attempted -- on every way that comes through the handler and goes on to the normal exit)
+                    clear_nodes = [n for n in A.walk_body(fa_.node)
+                                   if (isinstance(n, ast.Call) and A.call_attr(n) == "pop" and self_attr(A.call_recv(n), cm.refs) and fa_.unconditional(n))
+                                   or (isinstance(n, ast.Delete) and any(isinstance(t, ast.Subscript) and self_attr(t.value, cm.refs) for t in n.targets))]
+                    absent_ = branch_filter(fa_, lambda t, p, r_=cm.refs: (not p) and (" in self.%s" % r_) in t)
                     for h in tr.handlers:
                         swallows = not any(isinstance(n, ast.Raise) for n in A.walk_local(h))
-                        clears = any((isinstance(n, ast.Call) and A.call_attr(n) == "pop" and self_attr(A.call_recv(n), cm.refs)) or
-                                     (isinstance(n, ast.Delete) and any(isinstance(t, ast.Subscript) and self_attr(t.value, cm.refs) for t in n.targets))
-                                     for n in A.walk_local(h))
+                        hn = fa_.nodes(h)
+                        clears = bool(hn) and bool(clear_nodes) and every_path_through(fa_, hn, fa_.nodes_all(clear_nodes), edge_ok=absent_)
+                        if not hn:
+                            clears = any(fa_.inside(n, h) for n in clear_nodes)
                         okw = (not swallows) or clears
                         ck.ob(R, fa_.key(None, "weak-slot-replaced"), okw, "a value that cannot be weakly referenced clears the key's weak slot" if okw else
                               "when the new value cannot be weakly referenced the handler keeps the previous value's weak reference: after the entry "
@@ -931,14 +1323,19 @@ def check_path_scheme(ck):
     pmod = PathModel(ck)
 
     def call_named(fa_, r):
-        """(is the name the call path of the method's own (fn_reference, arg_hash)?, parts after the call path)"""
-        parts = pmod.flatten(fa_, r.value, r)
-        cp = PathModel.call_path(parts)
-        arg = [p_ for p_ in fa_.fi.params if p_ != "self"]
-        own = cp is not None and bool(arg) and cp[0] == arg[0] + ".fn_reference" and cp[1] == arg[0] + ".arg_hash"
-        return own, (cp[2] if cp is not None else parts)
+        """per value the return may hand out (a name built on several branches gives one each):
+        [(is the name the call path of the method's own (fn_reference, arg_hash)?, parts after the call path)]"""
+        out_ = []
+        ids_ = fa_.nodes(r)
+        for alt in (_alternatives(fa_, r.value, ids_[0]) if ids_ else [r.value]):
+            parts = pmod._post(pmod._flat(alt))
+            cp = PathModel.call_path(parts)
+            arg = [p_ for p_ in fa_.fi.params if p_ != "self"]
+            own = cp is not None and bool(arg) and cp[0] == arg[0] + ".fn_reference" and cp[1] == arg[0] + ".arg_hash"
+            out_.append((own, (cp[2] if cp is not None else parts)))
+        return out_
 
-    named = [call_named(mp, r) for r in mp.some([r for r in mp.returns() if r.value is not None], "return with a value")]
+    named = [x for r in mp.some([r for r in mp.returns() if r.value is not None], "return with a value") for x in call_named(mp, r)]
     sufs = {rest[0][1] if len(rest) == 1 and rest[0][0] == "lit" else None for (_own, rest) in named}
     if None in sufs and all(own for (own, _r) in named):
         raise AnalysisError("%s: cannot identify the literal suffix of memento file names" % mp.qual)
@@ -960,16 +1357,17 @@ def check_path_scheme(ck):
     ck.ob(R, lm.key(lk, "directory"), okd, "listing scans exactly the function's directory" if okd else
           "list_mementos does not scan the directory returned by _get_function_path", lm.where(lk))
     mk = FA(ck, MDS + "._get_metadata_key")
-    knamed = [call_named(mk, r) for r in mk.some([r for r in mk.returns() if r.value is not None], "return with a value")]
+    knamed = [x for r in mk.some([r for r in mk.returns() if r.value is not None], "return with a value") for x in call_named(mk, r)]
     okk = all(own and rest and rest[0][0] == "lit" and rest[0][1] and not rest[0][1].startswith(suffix) and not suffix.startswith(rest[0][1]) for (own, rest) in knamed)
     ck.ob(R, mk.key(None, "metadata-name"), okk, "custom metadata names start with the call path and cannot end like a memento" if okk else
           "custom metadata file names collide with memento file names", mk.where())
     # list_functions strips '<prefix>/'
     lf = FA(ck, MDS + ".list_functions")
     lkf = lf.one(lf.calls("list_keys_nonversioned"), "list_keys_nonversioned call")
-    dirv = A.kwarg(lkf, "directory")
+    blf = _bind(lkf, lk_params)
+    dirv, recv = blf.get("directory"), blf.get("recursive")
     okf = dirv is not None and "attr:DataSourceMetadataSource._function_path_prefix" in lf.deps(dirv) and \
-        (A.kwarg(lkf, "recursive") is None or A.norm(A.kwarg(lkf, "recursive")) == "False")
+        (recv is None or _xt(lf, recv, lkf) == "False")
     ck.ob(R, lf.key(lkf, "directory"), okf, "functions are listed from the metadata prefix, one level" if okf else
           "list_functions does not list exactly the first level under the metadata prefix", lf.where(lkf))
     gf = FA(ck, MDS + "._get_function_path")
@@ -979,12 +1377,22 @@ def check_path_scheme(ck):
     # filesystem data source: .link suffix, .versions directory, escape/unquote
     lp = FA(ck, FSDS + "._get_non_versioned_link_path")
     lpr = lp.one([r for r in lp.returns() if r.value is not None], "return")
-    lits = [s for s in A.strings_in(safe_expand(lp, lpr.value, lpr))]
+    lits = [s for s in A.strings_in(_canon_strings(safe_expand(lp, lpr.value, lpr)))]
     ck.need(len(lits) == 1, "link path builder: cannot identify the link suffix")
     link = lits[0]
     ls = FA(ck, FSDS + ".list_keys_nonversioned")
     strips = _suffix_strip_sites(ck, ls)
     ck.need(strips, "list_keys_nonversioned: no link-suffix strip site found")
+    # every walker turns link file names into key names (unless the listing does it for all of them afterwards)
+    in_listing = any(f_.fi is ls.fi for (f_, *_r) in strips)
+    for wname, wfi in _walkers(ck, ls).items():
+        if in_listing or any(f_.fi is wfi for (f_, *_r) in strips):
+            continue
+        if any(link in s_ for s_ in A.strings_in(wfi.node)):
+            raise AnalysisError("list_keys_nonversioned: %s mentions %r but no link-suffix strip site is recognised in it (unsupported idiom)" % (wname, link))
+        ck.ob(R, "%s::strips-link-suffix" % wfi.qual, False,
+              "%s hands out file names without removing the %r suffix of link files: a stored key `k` is listed as `k%s`, which no look-up finds" % (wname, link, link),
+              A.loc(wfi, wfi.node))
     for (f_, st, n, lit, cut, conds) in strips:
         fn = f_.fi
         ok = lit == link and cut == len(link)
@@ -1322,6 +1730,11 @@ def check_created_paths(ck, R):
                         and refers(k.func.value, k) and sp.is_scheme(safe_expand(fa, k.args[0], k)):
                     moves.append(k)
             starts = fa.nodes(c)
+            # an unlink registered with an ExitStack before the file is created runs on every way out of that `with`
+            if any(fa.inside(c, w_) and all(fa.cfg.must_pass(fa.nodes(k_), i_) for i_ in starts)
+                   for (k_, w_) in _exit_callbacks_removing(ck, fa, refers)) and starts:
+                ck.ob(R, fa.key(c, "created-path-in-scheme"), True, "the scratch file is unlinked by an exit callback registered before it is created", fa.where(c))
+                continue
             un, mv = set(fa.nodes_all(unlinks)), set(fa.nodes_all(moves)) - set(starts)
             gone = branch_filter(fa, lambda t, p: (not p) and ("exists(" in t or "isfile(" in t or "is_file(" in t))
             contained = _os_error_contained(fa)
@@ -1348,6 +1761,52 @@ def check_created_paths(ck, R):
                   % (m.name, what, A.short(p_ if p_ is not None else c, 60), how), fa.where(c))
     ck.ob(R, "%s::created-paths::scan" % FSDS, n_sites >= 2, "%d file-creating sites in the filesystem data source" % n_sites if n_sites >= 2 else
           "the filesystem data source creates fewer files than its link and its version object (%d sites found)" % n_sites, A.loc(cls, cls.node))
+
+
+def _exit_callbacks_removing(ck, fa: FA, refers):
+    """`<stack>.callback(F, ..)` registrations, <stack> bound by `with ExitStack() as <stack>`, whose callback unlinks the
+    file `refers` recognises: F an unlink function given the path, a bound `path.unlink`, a parameterless lambda that
+    unlinks it, or a repository function that unlinks its first parameter.  -> [(call, the with statement)]"""
+    out = []
+    for w_ in fa.stmts(ast.With):
+        names = {it.optional_vars.id for it in w_.items if isinstance(it.optional_vars, ast.Name)
+                 and isinstance(it.context_expr, ast.Call) and A.call_attr(it.context_expr) == "ExitStack"}
+        if not names:
+            continue
+        for k in fa.calls("callback"):
+            if not (isinstance(A.call_recv(k), ast.Name) and A.call_recv(k).id in names and fa.inside(k, w_) and k.args):
+                continue
+            f, rest = k.args[0], k.args[1:]
+            removes = False
+            if isinstance(f, ast.Lambda) and not f.args.args:
+                for x in ast.walk(f.body):
+                    if isinstance(x, ast.Call):
+                        d = A.call_dotted(x) or ""
+                        if (d in _UNLINK_FUNCS and x.args and refers(x.args[0], k)) or \
+                                (A.call_attr(x) == "unlink" and isinstance(x.func, ast.Attribute) and not d.startswith("os.") and refers(x.func.value, k)):
+                            removes = True
+            elif isinstance(f, ast.Attribute) and f.attr == "unlink" and (A.dotted(f) or "") not in _UNLINK_FUNCS and refers(f.value, k):
+                removes = True
+            elif rest and refers(rest[0], k):
+                d = A.dotted(f) or ""
+                if d in _UNLINK_FUNCS:
+                    removes = True
+                else:
+                    target = None
+                    if isinstance(f, ast.Name):
+                        target = ck.repo.try_func("%s.%s" % (fa.qual.split(".")[0], f.id))
+                    elif isinstance(f, ast.Attribute) and isinstance(f.value, ast.Name) and fa.fi.cls is not None and f.value.id in ("self", "cls", fa.fi.cls.name):
+                        target = fa.fi.cls.methods.get(f.attr)
+                    if target is not None and target.node is not None:
+                        ps = [p_ for p_ in target.params if p_ not in ("self", "cls")]
+                        for x in A.body_calls(target.node):
+                            d2 = A.call_dotted(x) or ""
+                            if ps and ((d2 in _UNLINK_FUNCS and x.args and A.norm(_strip_path_wrappers(x.args[0])) == ps[0]) or
+                                       (A.call_attr(x) == "unlink" and isinstance(x.func, ast.Attribute) and A.norm(x.func.value) == ps[0])):
+                                removes = True
+            if removes:
+                out.append((k, w_))
+    return out
 
 
 def _os_error_contained(fa: FA):
@@ -1384,17 +1843,48 @@ def _os_error_contained(fa: FA):
 
 def _walkers(ck, ls: FA):
     """The generators that enumerate a directory for list_keys_nonversioned: its nested functions, or -- when they were
-    hoisted out -- the methods of the same class it calls that contain a `yield`.  -> {name: FuncInfo}"""
+    hoisted out -- the methods of the same class / functions of the same module it refers to (called directly, or picked
+    into a variable that is called later) that contain a `yield`.  -> {name: FuncInfo}"""
     out = dict(ls.fi.nested)
     cls = ls.fi.cls
-    if cls is not None:
-        for c in ls.calls():
-            f = c.func
-            if isinstance(f, ast.Attribute) and isinstance(f.value, ast.Name) and f.value.id in ("self", "cls", cls.name) and f.attr in cls.methods:
-                m = cls.methods[f.attr]
-                if any(isinstance(y, (ast.Yield, ast.YieldFrom)) for y in A.walk_body(m.node)):
-                    out[f.attr] = m
+
+    def is_gen(fi):
+        return fi is not None and fi.node is not None and any(isinstance(y, (ast.Yield, ast.YieldFrom)) for y in A.walk_body(fi.node))
+
+    for n in A.walk_body(ls.node):
+        if cls is not None and isinstance(n, ast.Attribute) and isinstance(n.ctx, ast.Load) and isinstance(n.value, ast.Name) \
+                and n.value.id in ("self", "cls", cls.name) and n.attr in cls.methods and is_gen(cls.methods[n.attr]):
+            out[n.attr] = cls.methods[n.attr]
+        elif isinstance(n, ast.Name) and isinstance(n.ctx, ast.Load) and n.id not in out and not ls.df.is_local(n.id):
+            fi = ck.repo.try_func("%s.%s" % (ls.fi.qual.split(".")[0], n.id))
+            if is_gen(fi):
+                out[n.id] = fi
     return out
+
+
+def _walker_of_call(ls: FA, walkers, e, at_nodes=None):
+    """the walker(s) a call runs: `walk()`, `self._walk(..)`, or a local that every reaching definition binds to a walker
+    (`walker = self._a if recursive else self._b` ... `walker(..)`).  -> list of names (empty when `e` is no such call)"""
+    if not isinstance(e, ast.Call):
+        return []
+    f = e.func
+    if isinstance(f, ast.Attribute) and isinstance(f.value, ast.Name) and f.attr in walkers:
+        return [f.attr]
+    if isinstance(f, ast.Name):
+        ids = at_nodes if at_nodes else ls.nodes(e)
+        if f.id in walkers and not (ids and any(d.kind == "assign" for i in ids for d in ls.df.reaching(i, f.id))):
+            return [f.id]
+        names = []
+        for i in ids:
+            for alt in _alternatives(ls, f, i):
+                if isinstance(alt, ast.Attribute) and isinstance(alt.value, ast.Name) and alt.attr in walkers:
+                    names.append(alt.attr)
+                elif isinstance(alt, ast.Name) and alt.id in walkers and alt.id != f.id:
+                    names.append(alt.id)
+                else:
+                    return []
+        return names
+    return []
 
 
 def _suffix_strip_sites(ck, ls: FA):
@@ -1411,8 +1901,13 @@ def _suffix_strip_sites(ck, ls: FA):
             if isinstance(v, ast.Subscript) and isinstance(v.slice, ast.Slice) and v.slice.step is None \
                     and (v.slice.lower is None or (isinstance(v.slice.lower, ast.Constant) and v.slice.lower.value == 0)):
                 up = v.slice.upper
+                o = None
                 if isinstance(up, ast.UnaryOp) and isinstance(up.op, ast.USub):
                     o = up.operand
+                elif isinstance(up, ast.BinOp) and isinstance(up.op, ast.Sub) and isinstance(up.left, ast.Call) and isinstance(up.left.func, ast.Name) \
+                        and up.left.func.id == "len" and len(up.left.args) == 1 and A.norm(up.left.args[0]) == A.norm(v.value):
+                    o = up.right        # x[: len(x) - K]
+                if o is not None:
                     if isinstance(o, ast.Constant) and isinstance(o.value, int):
                         cut = o.value
                     elif isinstance(o, ast.Call) and isinstance(o.func, ast.Name) and o.func.id == "len" and len(o.args) == 1:
@@ -1452,8 +1947,18 @@ def _suffix_strip_sites(ck, ls: FA):
 def check_escape_inverse(ck, R):
     ls = FA(ck, FSDS + ".list_keys_nonversioned")
     ek = FA(ck, FSDS + "._escape_key")
-    rep = ek.one(ek.calls("replace"), "replace call")
-    esc = [A.const_str(a) for a in rep.args]
+    # what is replaced by what: `key.replace(OLD, NEW)` or `NEW.join(key.split(OLD))`, literals through temporaries
+    pairs = []
+    for c in ek.calls("replace"):
+        if len(c.args) == 2:
+            pairs.append([A.const_str(safe_expand(ek, a, c)) for a in c.args])
+    for c in ek.calls("join"):
+        inner = safe_expand(ek, c.args[0], c) if len(c.args) == 1 else None
+        if isinstance(inner, ast.Call) and A.call_attr(inner) == "split" and len(inner.args) == 1 and isinstance(c.func, ast.Attribute):
+            pairs.append([A.const_str(safe_expand(ek, inner.args[0], c)), A.const_str(safe_expand(ek, c.func.value, c))])
+    if len(pairs) != 1:
+        raise AnalysisError("%s: expected exactly one replace call, found %d" % (ek.qual, len(pairs)))
+    esc = pairs[0]
     from urllib.parse import unquote as _uq
     oke = len(esc) == 2 and esc[0] == ":" and esc[1] is not None and _uq(esc[1]) == ":"
     # the listing must apply the exact inverse: urllib.parse.unquote (directly or through a helper of
@@ -1501,19 +2006,30 @@ def check_listing_filters(ck, R):
     counted against `limit`; nothing narrows the listing afterwards."""
     ls = FA(ck, FSDS + ".list_keys_nonversioned")
     walkers = _walkers(ck, ls)
+    # a walker that was hoisted out of the listing receives what it used to capture: under which of its own parameter names
+    # do the listing's `limit` / `endswith` / `file_prefix` arrive (identity for a closure)
+    passed = {}
+    for c in ls.calls():
+        for w in _walker_of_call(ls, walkers, c):
+            wp = [p_ for p_ in walkers[w].params if p_ not in ("self", "cls")]
+            for (pn, a) in _bind(c, wp).items():
+                if isinstance(a, ast.Name) and a.id in ls.fi.params:
+                    passed.setdefault(w, {})[a.id] = pn
     for name, sub in walkers.items():
         f = FA(ck, sub)
+        lim = passed.get(name, {}).get("limit", "limit")
         # the counter is the local that is compared with `limit`
-        cmpd = {x.id for n_ in A.walk_body(sub.node) if isinstance(n_, ast.Compare) and "limit" in A.names_in(n_) for x in ast.walk(n_) if isinstance(x, ast.Name)} - {"limit"}
+        cmpd = {x.id for n_ in A.walk_body(sub.node) if isinstance(n_, ast.Compare) and lim in A.names_in(n_) for x in ast.walk(n_) if isinstance(x, ast.Name)} - {lim}
         counts = [s_ for s_ in f.stmts(ast.AugAssign) if isinstance(s_.target, ast.Name) and s_.target.id in cmpd]
         if not counts:
             continue
-        for flt in ("endswith", "file_prefix"):
+        for flt0 in ("endswith", "file_prefix"):
+            flt = passed.get(name, {}).get(flt0, flt0)
             tests = [n.id for n in f.cfg.nodes if n.kind == "test" and flt in A.names_in(n.ast)]
             ok = bool(tests) and all(f.cfg.must_pass(tests, i) for c in counts for i in f.nodes(c))
-            ck.ob(R, f.key(None, "filter-before-count:" + flt), ok, "`%s` is applied before an entry counts against the limit" % flt if ok else
+            ck.ob(R, f.key(None, "filter-before-count:" + flt0), ok, "`%s` is applied before an entry counts against the limit" % flt0 if ok else
                   "in %s an entry is counted against `limit` before the `%s` filter is applied: list_mementos(limit=n) returns fewer than "
-                  "min(n, live) entries when other files (custom metadata) share the directory" % (name, flt), f.where())
+                  "min(n, live) entries when other files (custom metadata) share the directory" % (name, flt0), f.where())
     rets = ls.returns()
     post = []
 
@@ -1523,7 +2039,7 @@ def check_listing_filters(ck, R):
             return True
         if isinstance(e, ast.Call) and isinstance(e.func, ast.Name) and e.func.id in ("list", "tuple") and len(e.args) == 1 and not e.keywords:
             return walk_output(e.args[0], at_nodes, depth)
-        if isinstance(e, ast.Call) and A.call_attr(e) in walkers and (isinstance(e.func, ast.Name) or (isinstance(e.func, ast.Attribute) and isinstance(e.func.value, ast.Name))):
+        if _walker_of_call(ls, walkers, e, at_nodes):
             return True
         if isinstance(e, ast.Name) and depth < 4:
             ds = {}
@@ -1557,15 +2073,73 @@ def check_listing_filters(ck, R):
 def check_override_writes(ck, R):
     ck.rule(R, "reads return the last value written: a memoize under a key override always writes the new bytes (the "
                "'already stored, reuse it' shortcut applies to content-addressed keys only)", 2)
-    from .c07 import _check_dedupe, BLOB
+    from .c07 import BLOB
     fa = FA(ck, BLOB + ".store")
-    outs = [c for c in fa.calls("output") if A.dotted(A.call_recv(c)) == "data_source"]
+    outs = [c for c in fa.calls("output") if A.dotted(A.call_recv(c)) == "data_source" or _xt(fa, A.call_recv(c), c) == "data_source"]
     exs = [c for c in fa.calls("exists_nonversioned")]
     if len(exs) != 1 or not outs:
         ck.ob(R, fa.key(None, "override-always-writes"), len(exs) == 0 and bool(outs), "no reuse shortcut at all" if len(exs) == 0 and outs else
               "BlobStrategy.store has %d existence tests / %d writes" % (len(exs), len(outs)), fa.where())
         return
-    _check_dedupe(ck, fa, exs[0], outs, R)
+    _check_reuse_shortcut(ck, fa, exs[0], outs, R)
+
+
+def _check_reuse_shortcut(ck, fa: FA, ex, outs, R2):
+    """The reuse shortcut of BlobStrategy.store, decided on what can run under assumptions about the two facts that
+    matter (is there an override? does the content key exist?) -- whatever the tests look like: if statements, guard
+    clauses, a flag local, a conditional expression choosing between "reuse" and "write" inside one statement."""
+    from .effects import Assume, param_truth_atom, call_atom
+    P_ = fa.fi.params
+    ov_p = P_[2] if len(P_) > 2 else "key_override"
+    EX = ("exists_nonversioned",)
+    # what the data source hands back for a stored object is a versioned key, an object: a result variable that holds one is not None
+    NN = ("get_versioned_key", "output")
+    present = Assume(fa, param_truth_atom(ov_p, False, call_atom(EX, True)), nonnull=NN)
+    absent = Assume(fa, param_truth_atom(ov_p, False, call_atom(EX, False)), nonnull=NN)
+    with_ov = Assume(fa, param_truth_atom(ov_p, True), nonnull=NN)
+    # no override, content key present: no write can run
+    ok = not any(present.may_run(o) for o in outs)
+    ck.ob(R2, fa.key(ex, "no-write-when-present"), ok, "output is reached only under an override or when the content key is absent" if ok else
+          "a new object version is written although the content key exists and no override was given", fa.where(ex))
+    # under an override the new bytes are always written (the override location is mutable: the last write must win):
+    # no way to the normal exit avoids the statements that are certain to write
+    must = []
+    for o in outs:
+        must += with_ov.must_run(o)
+    ov_tests = [n for n in fa.cfg.nodes if n.kind == "test" and n.id in fa.cfg.reachable_nodes() and with_ov.truth(n.ast, n.id) is not None]
+    okw = bool(must) and fa.cfg.exit not in with_ov.reach(removed=must)
+    ck.ob(R2, fa.key(ov_tests[0].ast if ov_tests else None, "override-always-writes"), okw, "with a key override the object is always written" if okw else
+          "with a key override store() can return without writing (the reuse shortcut also fires for override keys): a second result "
+          "written under the same override key is dropped and reads return the first one", fa.where(ex))
+    # content key present, no override: what is returned is get_versioned_key(<that content key>)
+    live = present.reach()
+    ex_keys = set()
+    for i in fa.nodes(ex):
+        ex_keys |= present.texts(ex.args[0], i) if ex.args else set()
+    rets = [fa.cfg.node(i).ast for i in sorted(live) if fa.cfg.node(i).kind == "stmt" and isinstance(fa.cfg.node(i).ast, ast.Return)]
+    okr = bool(rets) and bool(ex_keys)
+    for x in rets:
+        for i in present.live(x):
+            for (leaf, n) in (present.cases(x.value, i) if x.value is not None else [(None, i)]):
+                if not (isinstance(leaf, ast.Call) and A.call_attr(leaf) == "get_versioned_key" and len(leaf.args) == 1
+                        and present.texts(leaf.args[0], n) == ex_keys):
+                    okr = False
+    first = rets[0] if rets else ex
+    ck.ob(R2, fa.key(first, "reuse-existing"), okr, "the existing versioned key of the same key is returned" if okr else
+          "the dedupe path does not return get_versioned_key(<content key>)", fa.where(first))
+    # the key tested is the content key, and it is the key that is written when the test fails
+    exarg_ok = bool(ex_keys)
+    for i in fa.nodes(ex):
+        for (leaf, n) in (absent.cases(ex.args[0], i) if ex.args else []):
+            if "call:output_key_for_content_key" not in fa.df.deps(leaf, n):
+                exarg_ok = False
+    for o in outs:
+        keyarg = o.args[0] if o.args else A.kwarg(o, "key")
+        for i in absent.may_run(o):
+            if keyarg is None or absent.texts(keyarg, i) != ex_keys:
+                exarg_ok = False
+    ck.ob(R2, fa.key(ex, "tests-content-key"), bool(exarg_ok), "the existence test is on the content key" if exarg_ok else
+          "the existence test is not on the key that would be written", fa.where(ex))
 
 
 def _refuses_suffixed(ck, fa: FA, names, suffix, depth=2) -> bool:
@@ -1578,6 +2152,16 @@ def _refuses_suffixed(ck, fa: FA, names, suffix, depth=2) -> bool:
         if isinstance(e, ast.Call) and A.call_attr(e) == "endswith" and isinstance(A.call_recv(e), ast.Name) and A.call_recv(e).id in names \
                 and suffix in A.strings_in(e):
             return True
+        if isinstance(e, ast.Compare) and len(e.ops) == 1 and isinstance(e.ops[0], ast.Eq):
+            # the same test as a slice comparison: key[-len(S):] == S / key[-N:] == S with N = len(S)
+            for (a, b) in ((e.left, e.comparators[0]), (e.comparators[0], e.left)):
+                if A.const_str(b) == suffix and isinstance(a, ast.Subscript) and isinstance(a.value, ast.Name) and a.value.id in names \
+                        and isinstance(a.slice, ast.Slice) and a.slice.upper is None and a.slice.step is None \
+                        and isinstance(a.slice.lower, ast.UnaryOp) and isinstance(a.slice.lower.op, ast.USub):
+                    o = a.slice.lower.operand
+                    if (isinstance(o, ast.Constant) and o.value == len(suffix)) or \
+                            (isinstance(o, ast.Call) and isinstance(o.func, ast.Name) and o.func.id == "len" and len(o.args) == 1 and A.const_str(o.args[0]) == suffix):
+                        return True
         if isinstance(e, ast.Compare) and len(e.ops) == 1 and isinstance(e.ops[0], (ast.Is, ast.IsNot)) and isinstance(e.left, ast.Name) and e.left.id in names \
                 and A.is_none(e.comparators[0]):
             return isinstance(e.ops[0], ast.IsNot)   # a key that ends in the suffix is a string
